@@ -880,6 +880,13 @@ func (g *GoFakeS3) deleteMulti(bucket string, w http.ResponseWriter, r *http.Req
 func (g *GoFakeS3) initiateMultipartUpload(bucket, object string, w http.ResponseWriter, r *http.Request) error {
 	g.log.Print(LogInfo, "initiate multipart upload", bucket, object)
 
+	// 'POST /bucket?uploads' names no key. An upload for the empty key could
+	// never be addressed by its key again, and its empty name cannot serve as
+	// a key marker when the pending uploads are listed page by page.
+	if object == "" {
+		return ErrMethodNotAllowed
+	}
+
 	meta, err := metadataHeaders(r.Header, g.timeSource.Now(), g.metadataSizeLimit)
 	if err != nil {
 		return err
